@@ -19,7 +19,7 @@ macro_rules! float_harnesses {
     ($t:ty, $slot:ident, $dec:ident, $kw:ident, $other:ident) => {
         /// Decimal literal: the conversion returns exactly what the float parser returns.
         #[kani::proof]
-        #[kani::unwind(3)]
+        #[kani::unwind(20)]
         #[kani::stub(lexical_core::parse, stub_parse_f)]
         pub fn $dec() {
             let v: $t = kani::any();
